@@ -17,6 +17,13 @@ func runC09(p *Program, r *Report) {
 	ruleR092(p, r)
 	r.Rule("R09.3", "E1", 2, "placeholder positions are range-checked on both sides: in the OnBind handlers of both dialects the zero-based index derived from the placeholder number is proven 0 <= index < len(values) where it is recorded for replacement")
 	ruleBindIndex(p, r, "R09.3", []string{"hmac/decryptor/postgresql.(*HashQuery).OnBind", "hmac/decryptor/mysql.(*HashQuery).OnBind"})
+	r.Rule("R09.5", "E3", 2, "a bound value is hashed once: in both dialects the loop that replaces bound values by their hashes skips an index it has already processed (the outgoing slice shares the value objects with the incoming one)")
+	ruleTransformOnce(p, r, "R09.5", []string{"hmac/decryptor/postgresql.(*HashQuery).replaceValuesWithHMACs", "hmac/decryptor/mysql.(*HashQuery).replaceValuesWithHMACs"})
+	r.Rule("R09.6", "E3", 8, "the search key is single-use: hmac.GenerateHMAC overwrites the key it is given, so a key buffer passed to it (directly or through a helper that passes it on) is obtained again before every further hash - it is never passed twice, never passed inside a loop that does not reload it, and never read afterwards")
+	ruleUseAfterWipe(p, r, "R09.6", func(s wipeSite) bool {
+		pp := fnPkgPath(s.Fn)
+		return strings.HasPrefix(pp, acraMod+"/hmac") || strings.HasPrefix(pp, acraMod+"/cmd/acra-translator")
+	})
 	r.Rule("R09.4", "E3", 2, "index re-verification is wired: in both proxy factories the HMAC processor is subscribed both before and after the container detector (strip-and-remember, then verify after decryption)")
 	ruleR094(p, r)
 }
@@ -67,9 +74,14 @@ func ruleR091(p *Program, r *Report) {
 					if u, isU := i.Cond.(*ssa.UnOp); isU && u.Op.String() == "!" {
 						matched = i.Block().Succs[1]
 					}
-					if !matched.Dominates(cs.Block) {
-						continue
+					unmatched := i.Block().Succs[0]
+					if unmatched == matched {
+						unmatched = i.Block().Succs[1]
 					}
+					if unmatched.Dominates(cs.Block) && !matched.Dominates(cs.Block) {
+						continue // raw value: hashed as it came
+					}
+					// on the matched edge, hoisted above the test, or after the join: the hashed value must come from Process
 					fromProcess := false
 					for v := range backClosure(args[1]) {
 						if ex, isEx := v.(*ssa.Extract); isEx && ex.Index == 0 {
@@ -228,7 +240,80 @@ func ruleR094(p *Program, r *Report) {
 func init() {
 	mut("C09", "query hash keyed by the column's own key lookup under a fixed id", "hmac/decryptor/postgresql/hashQuery.go", "		key, err := encryptor.keystore.GetHMACSecretKey(accessContext.GetClientID())\n		if err != nil {\n			logrus.WithError(err).Debugln(\"Can't load key for hmac\")\n			return nil, err\n		}\n		logrus.Debugln(\"Searchable column with raw data, replace with HMAC\")\n		return hmac.GenerateHMAC(key, data), nil", "		key, err := encryptor.keystore.GetHMACSecretKey(accessContext.GetClientID())\n		if err != nil {\n			logrus.WithError(err).Debugln(\"Can't load key for hmac\")\n			return nil, err\n		}\n		logrus.Debugln(\"Searchable column with raw data, replace with HMAC\")\n		return hmac.GenerateHMAC(append(key[:0:0], accessContext.GetClientID()...), data), nil", "R09.1", "GenerateHMAC key")
 	mut("C09", "write path hashes the envelope instead of its plaintext", "hmac/dataEncryptor.go", "			hash = GenerateHMAC(key, data)\n		} else {", "			hash = GenerateHMAC(key, encryptedData)\n		} else {", "R09.1", "already protected value")
+	mut("C09", "write path hashes before it knows whether the value is an envelope", "hmac/dataEncryptor.go", "		var encryptedData, hash []byte\n		if e.decryptor.MatchDataSignature(data) {", "		var encryptedData, hash []byte\n		hash0 := GenerateHMAC(key, data)\n		_ = hash0\n		if e.decryptor.MatchDataSignature(data) {", "R09.1", "already protected value")
+	mut("C09", "key loaded once for all placeholders of a statement", "hmac/decryptor/postgresql/hashQuery.go", "	processed := make(map[int]struct{}, len(placeholders))\n	for _, valueIndex := range placeholders {", "	processed := make(map[int]struct{}, len(placeholders))\n	sharedKey, _ := encryptor.keystore.GetHMACSecretKey(base.AccessContextFromContext(ctx).GetClientID())\n	for _, valueIndex := range placeholders {\n		_ = hmac.GenerateHMAC(sharedKey, nil)", "R09.6", "handed to GenerateHMAC")
 	mut("C09", "mysql substring length hard-coded", "hmac/decryptor/mysql/hashQuery.go", "	hashSize := []byte(fmt.Sprintf(\"%d\", hmac.GetDefaultHashSize()))\n	for _, item := range items {\n		if !item.Setting.IsSearchable() {\n			continue\n		}\n\n		// column = 'value'", "	hashSize := []byte(fmt.Sprintf(\"%d\", 32))\n	for _, item := range items {\n		if !item.Setting.IsSearchable() {\n			continue\n		}\n\n		// column = 'value'", "R09.2", "mysql")
 	mut("C09", "pg OnBind: lower bound dropped (original defect)", "hmac/decryptor/postgresql/hashQuery.go", "		if index < 0 || index >= len(values) {", "		if index >= len(values) {", "R09.3", "OnBind")
+	mut("C09", "pg: repeated placeholder hashed twice (original defect)", "hmac/decryptor/postgresql/hashQuery.go", "		if _, done := processed[valueIndex]; done {\n			continue\n		}\n", "", "R09.5", "transformed once")
 	mut("C09", "pg factory: hmac processor only before the detector", "decryptor/postgresql/proxy.go", "	if hmacProcessor != nil {\n		// added same hmacProcessor to check hmac validation after decryption\n		proxy.SubscribeOnAllColumnsDecryption(hmacProcessor)\n	}\n", "", "R09.4", "postgresql")
+}
+
+// guardedBySeenSet: instr executes only on the 'not seen' edge of `_, ok := m[key]` over a local map that is
+// updated with the same key on that edge.
+func guardedBySeenSet(instr ssa.Instruction, key ssa.Value) bool {
+	fn := instr.Parent()
+	for _, b := range fn.Blocks {
+		for _, in := range b.Instrs {
+			lk, ok := in.(*ssa.Lookup)
+			if !ok || !lk.CommaOk || lk.Index != key {
+				continue
+			}
+			if _, isMk := lk.X.(*ssa.MakeMap); !isMk {
+				continue
+			}
+			okV := extractOf(lk, 1)
+			if okV == nil {
+				continue
+			}
+			for _, i := range ifsOn(okV) {
+				notSeen := i.Block().Succs[1]
+				if !notSeen.Dominates(instr.Block()) {
+					continue
+				}
+				// the key is recorded on that edge
+				for _, b2 := range fn.Blocks {
+					for _, in2 := range b2.Instrs {
+						if mu, ok := in2.(*ssa.MapUpdate); ok && mu.Map == lk.X && mu.Key == key && notSeen.Dominates(b2) {
+							return true
+						}
+					}
+				}
+			}
+		}
+	}
+	return false
+}
+
+// ruleTransformOnce: bound values are objects shared between the incoming and the outgoing slice, so a value
+// whose placeholder occurs in several conditions must be transformed once.
+func ruleTransformOnce(p *Program, r *Report, rule string, replaceSpecs []string) {
+	for _, spec := range replaceSpecs {
+		fn := p.Func(spec)
+		if fn == nil || fn.Blocks == nil {
+			r.Anchor(rule, spec)
+			continue
+		}
+		n := 0
+		for _, cs := range callsIn(fn) {
+			cm := cs.Instr.Common()
+			if !cm.IsInvoke() || cm.Method.Name() != "SetData" {
+				continue
+			}
+			// receiver = *(&slice[idx])
+			var idx ssa.Value
+			if u, ok := cm.Value.(*ssa.UnOp); ok {
+				if ia, ok := u.X.(*ssa.IndexAddr); ok {
+					idx = ia.Index
+				}
+			}
+			if idx == nil {
+				continue
+			}
+			n++
+			r.Check(guardedBySeenSet(cs.Instr, idx), rule, fnName(fn), "each bound value is transformed once", p.Pos(cs.Instr.Pos()), "SetData runs only for an index not seen before", "a placeholder that occurs in several conditions is transformed again from its already transformed value (the bound value object is shared): hash of a hash / token of a token is sent to the database and no row matches")
+		}
+		if n == 0 {
+			r.Bad(rule, fnName(fn), "each bound value is transformed once", p.Pos(fn.Pos()), "no SetData on an indexed bound value found; the function has changed shape")
+		}
+	}
 }
